@@ -256,8 +256,16 @@ class VerifyingKey(object):
            (if set to False) or if it should be delayed to the time of first
            use (when set to True)
         """
-        self.pubkey.point = ellipticcurve.PointJacobi.from_affine(
-            self.pubkey.point, True
+        point = self.pubkey.point
+        # the table needs the order of the point; a key built from a point
+        # object without a declared order gets the order of its curve
+        self.pubkey.point = ellipticcurve.PointJacobi(
+            point.curve(),
+            point.x(),
+            point.y(),
+            1,
+            point.order() or self.curve.order,
+            True,
         )
         # as precomputation in now delayed to the time of first use of the
         # point and we were asked specifically to precompute now, make
